@@ -371,7 +371,7 @@ func c22GenSteps(rng *rand.Rand, kind string, specs []c22TopicSpec, lastDelete i
 		seq := 0
 		np := 2 + rng.Intn(3)
 		if kind == "etcd" {
-			np = 2 + rng.Intn(2)
+			np = 2 + rng.Intn(5)/4
 		}
 		var body []c22Step
 		for i := 0; i < np; i++ {
@@ -421,7 +421,11 @@ func c22GenSteps(rng *rand.Rand, kind string, specs []c22TopicSpec, lastDelete i
 	if pos < 0 {
 		pos = 0
 	}
-	steps = append(steps[:pos], append([]c22Step{{Kind: "restart", T: -1, Val: "full"}}, steps[pos:]...)...)
+	full := "full" // EtcdStore part: a third of the cases reload the topic snapshot through a new store client (0.2 s each)
+	if kind == "etcd" && rng.Intn(3) != 0 {
+		full = ""
+	}
+	steps = append(steps[:pos], append([]c22Step{{Kind: "restart", T: -1, Val: full}}, steps[pos:]...)...)
 	// a delete must stay the last operation of its topic: the insertion above never reorders topic steps
 	if lastDelete >= 0 {
 		steps = append(steps, c22Step{Kind: "delete", T: lastDelete}, c22Step{Kind: "restart", T: -1})
@@ -1554,7 +1558,7 @@ func TestVerifC22(t *testing.T) {
 	// part 2: EtcdStore over an embedded etcd
 	e := c22StartEtcd(t)
 	et := &c22Leg{r: r, kind: "etcd", etcd: e}
-	n = r.N(22, 150)
+	n = r.N(18, 150)
 	deadline := time.Now().Add(4 * time.Minute)
 	if r.Thorough() {
 		deadline = time.Now().Add(20 * time.Minute)
